@@ -35,6 +35,9 @@ def handle (entry : String) (j : Json) : Except String Json := do
       ("model", arr respToJson (elementwise (respOfFilter b a) ws)),
       ("spec", arr respToJson (elementwise (respSpec b a) ws)),
       ("den", arr gToJson (ws.map (evalDirect a))),
+      -- does the constructor raise (independently of any frequency)?
+      ("ctor_model", Json.bool (mkFilter b a).isNone),
+      ("ctor_spec", Json.bool (a.all (fun c => decide (c = 0)))),
       ("horner", Json.bool (match mkFilter b a with
           | some f => f.num.all (fun t => decide (0 ≤ t.1))
           | none => false))]
@@ -47,6 +50,8 @@ def handle (entry : String) (j : Json) : Except String Json := do
       else (elementwise (parallelResp bank) ws, elementwise (parallelSpec bank) ws)
     pure <| Json.mkObj [
       ("model", arr respToJson m), ("spec", arr respToJson s),
+      ("ctor_model", Json.bool (bank.any fun f => (mkFilter f.1 f.2).isNone)),
+      ("ctor_spec", Json.bool (bank.any fun f => f.2.all (fun c => decide (c = 0)))),
       ("dens", arr (fun w => arr (fun (f : List GRat × List GRat) => gToJson (evalDirect f.2 w)) bank) ws)]
   | "dft" =>
     let blk ← getList getG (← field j "blk")
